@@ -71,7 +71,9 @@ func (f *Unintern) Call(s *slip.Scope, args slip.List, depth int) (result slip.O
 		so = slip.Symbol(":") + so
 	}
 	if vv := p.GetVarVal(string(so)); vv != nil && vv.Pkg != nil && vv.Pkg != p {
-		return nil // inherited, not present in the package
+		// Inherited and not present in the package. The name stays
+		// visible through the used package.
+		return slip.True
 	}
 	if p.Remove(string(so)) {
 		return slip.True
